@@ -13,7 +13,12 @@ def explore(mir_path, repo, harness, outdir, procs=8, timeout=300, max_steps=2_0
     t0 = time.time()
     prog = mir.Program(mir_path)
     src = srcinfo.SrcInfo(repo)
+    # a slow (shared, throttled) machine must not turn into solver give-ups: every solver time limit is scaled by the
+    # factor the driver measured (MIRSYM_SLOW, >= 1)
+    slow = max(1.0, float(os.environ.get('MIRSYM_SLOW', '1') or 1))
+    query_timeout_ms = int(query_timeout_ms * slow)
     cfg = {
+        'feas_timeout_ms': int(3000 * slow), 'fresh_timeout_ms': int(40000 * slow),
         'results_fd': fd, 'sem': multiprocessing.Semaphore(max(1, procs - 1)), 'deadline': t0 + timeout,
         'max_steps': max_steps, 'known': list(known), 'concrete_inputs': concrete, 'query_timeout_ms': query_timeout_ms, 'export_smt': export_smt,
     }
